@@ -74,6 +74,8 @@ class Analysis:
     def local_types(self, func, param_types=None):
         """May-typing of local names: name -> kind."""
         types = dict(param_types or {})
+        if func.cls is not None and func.cls.name == 'Unique' and func.params and func.params[0] == 'self':
+            types.setdefault('self', ORD)
         # default values of parameters (``indexes=set(indexes)``)
         for name, d in func.defaults().items():
             k = self.kind(d, func, {})
@@ -166,6 +168,22 @@ class Analysis:
                     return s['returns']
             return None
         return None
+
+    def _operator_override(self, dunder):
+        """The package's own definition of a set operator on tools.Unique (None: the collections.abc mixin applies, whose
+        behaviour is tabulated in _consume)."""
+        mod = self.model.modules.get('tools')
+        cls = mod.classes.get('Unique') if mod is not None else None
+        return cls.methods.get(dunder) if cls is not None else None
+
+    def _via_override(self, dunder, func, k, ok, unk):
+        ov = self._operator_override(dunder)
+        if ov is None:
+            return None
+        if len(ov.params) < 2:
+            return unk(f'tools.Unique.{dunder} with an unexpected signature')
+        self.analyse(ov, {ov.params[1]: k if k != HEAP else TSEQ}, via=f'{func.key} -> {ov.key}({ov.params[1]})')
+        return ok(f'operator implemented by {ov.key}; analysed with the operand tainted')
 
     def _ordered_field(self, node):
         c = chain(node)
@@ -349,8 +367,13 @@ class Analysis:
                 tk = self.kind(par.target, func, types)
                 if tk == SET:
                     return ok('set algebra into a set (unordered)')
+                if tk == ORD or tk is None:
+                    dunder = {ast.BitAnd: '__iand__', ast.Sub: '__isub__', ast.BitOr: '__ior__', ast.BitXor: '__ixor__'}.get(type(par.op))
+                    r = self._via_override(dunder, func, k, ok, unk) if dunder else None
+                    if r is not None or (dunder and self._operator_override(dunder) is not None):
+                        return r
                 if isinstance(par.op, (ast.BitAnd, ast.Sub)) and k == SET:
-                    return ok('restricts a collection (membership only)')
+                    return ok('restricts a collection (membership only: MutableSet.__iand__/__isub__ discard from the left operand)')
                 if tk == ORD:
                     if isinstance(par.op, (ast.BitOr, ast.BitXor, ast.Add)):
                         return bad(f'{src(par.target)} {"|=" if isinstance(par.op, ast.BitOr) else "op="} <{k}>: an ordered collection is extended in hash order')
@@ -379,10 +402,17 @@ class Analysis:
                 return bad('%-formatted')
             if isinstance(par.op, (ast.BitAnd, ast.BitOr, ast.BitXor, ast.Sub)):
                 other = par.right if par.left is n else par.left
-                if par.right is n and self._ordered_field(par.left):
-                    if isinstance(par.op, ast.BitOr) and k == SET:
-                        return bad(f'ordered {src(par.left)} | set: new members appended in hash order')
-                    return ok('restricts an ordered collection (membership only)')
+                if par.right is n and (self._ordered_field(par.left) or self.kind(par.left, func, types) == ORD):
+                    dunder = {ast.BitAnd: '__and__', ast.Sub: '__sub__', ast.BitOr: '__or__', ast.BitXor: '__xor__'}[type(par.op)]
+                    if self._operator_override(dunder) is not None:
+                        return self._via_override(dunder, func, k, ok, unk)
+                    if isinstance(par.op, ast.BitOr):
+                        return bad(f'ordered {src(par.left)} | <{k}>: new members appended in hash order')
+                    if isinstance(par.op, (ast.BitAnd, ast.BitXor)):
+                        # collections.abc.Set.__and__: self._from_iterable(value for value in other if value in self)
+                        return bad(f'ordered {src(par.left)} {"&" if isinstance(par.op, ast.BitAnd) else "^"} <{k}>: '
+                                   'the Set mixin builds the result by iterating the right operand (hash order)')
+                    return ok('ordered - set: the Set mixin iterates the left operand (membership test only)')
                 return ok('set algebra')
             return unk(f'operator {src(par)[:50]}')
         if isinstance(par, ast.FormattedValue) or isinstance(par, ast.JoinedStr):
